@@ -99,6 +99,8 @@ fn main() {
         "atomic-save", "move-root", "touch",
     ];
     let mut case_no = 0;
+    // every missing notification costs a time-out: stop after a few failures
+    let fails = std::cell::Cell::new(0usize);
     for (mode, fast, persistent) in [("full", false, false), ("fast", true, false), ("persistent", false, true)] {
         for op in ops {
             case_no += 1;
@@ -136,7 +138,7 @@ fn main() {
             let n_before = notified.load(Ordering::SeqCst);
 
             apply(op, &w, &out);
-            let got_note = wait_until(if op == "touch" { 300 } else { 5000 }, || notified.load(Ordering::SeqCst) > n_before);
+            let got_note = wait_until(if op == "touch" { 300 } else { 3000 }, || notified.load(Ordering::SeqCst) > n_before);
             // let the remaining events of the same change arrive (rename = From + To + Both)
             std::thread::sleep(Duration::from_millis(40));
             let want = disk_state(&w);
@@ -155,6 +157,14 @@ fn main() {
             } else {
                 let ok = quiet && n_before == 0 && got_note && reflected && reload_kind_ok;
                 println!("wfs\t{}\t{}\t{}", name, if ok { "ok" } else { "FAIL" }, detail);
+                if !ok {
+                    fails.set(fails.get() + 1);
+                }
+            }
+            if fails.get() >= 9 {
+                println!("wfs\tremaining-cases\tinfo\tskipped after {} failures", fails.get());
+                fs::remove_dir_all(&base).ok();
+                return;
             }
             // dead notifier with watch-fs: no-ops, no panic
             let n = reloader.notifier();
@@ -167,6 +177,148 @@ fn main() {
                 println!("wfs\tdead-notifier-{}\tFAIL\tnotifier alive after its reloader was dropped", name);
             }
         }
+    }
+
+    // ---- sequences: a reload must not silence LATER changes.  mode x where the path is registered x
+    //      [request_reload + acquire, then three successive file changes, an acquire after each]
+    let seqs: [(&str, [&str; 3]); 2] = [("s1", ["write", "rename-out", "create"]), ("s2", ["delete", "atomic-save", "rename-dir-out"])];
+    for (mode, fast, persistent) in [("full", false, false), ("fast", true, false), ("persistent", false, true), ("fast+persistent", true, true)] {
+        for site in ["creator", "outside"] {
+            for (sname, ops) in &seqs {
+                case_no += 1;
+                let root = base.join(format!("case{}", case_no));
+                let (w, out) = (root.join("w"), root.join("out"));
+                fs::create_dir_all(w.join("sub")).unwrap();
+                fs::create_dir_all(&out).unwrap();
+                fs::write(w.join("a.txt"), "a1").unwrap();
+                fs::write(w.join("b.txt"), "b1").unwrap();
+                fs::write(w.join("sub/c.txt"), "c1").unwrap();
+                fs::write(out.join("in.txt"), "i1").unwrap();
+                let creates = Arc::new(AtomicUsize::new(0));
+                let (c2, w2) = (creates.clone(), w.clone());
+                let in_creator = site == "creator";
+                let reloader = AutoReloader::new(move |n| {
+                    c2.fetch_add(1, Ordering::SeqCst);
+                    let mut env = Environment::new();
+                    env.set_loader(path_loader(&w2));
+                    n.set_fast_reload(fast);
+                    n.persistent_watch(persistent);
+                    if in_creator {
+                        n.watch_path(&w2, true);
+                    }
+                    Ok(env)
+                });
+                let notified = Arc::new(AtomicUsize::new(0));
+                let n2 = notified.clone();
+                reloader.notifier().set_on_should_reload_callback(move || {
+                    n2.fetch_add(1, Ordering::SeqCst);
+                });
+                let name = format!("seq-{}-{}-{}", mode, site, sname);
+                let mut problem: Option<String> = None;
+                let first = env_state(&reloader.acquire_env().unwrap());
+                if first != disk_state(&w) {
+                    problem = Some("step0: first acquire does not reflect the disk".into());
+                }
+                if !in_creator {
+                    // registered ONCE from outside (the documented use of persistent_watch)
+                    reloader.notifier().watch_path(&w, true);
+                }
+                // a manual request before any file change: the reload it causes must keep the watcher
+                let c0 = creates.load(Ordering::SeqCst);
+                reloader.notifier().request_reload();
+                let st = env_state(&reloader.acquire_env().unwrap());
+                let c1 = creates.load(Ordering::SeqCst);
+                if problem.is_none() && (st != disk_state(&w) || (fast && c1 != c0) || (!fast && c1 != c0 + 1)) {
+                    problem = Some(format!("step0: request_reload + acquire: creates {}->{} env={:?}", c0, c1, st));
+                }
+                // documented: without persistent_watch and without fast reload a path registered from
+                // outside is gone after a reload ("watch_path must be invoked again")
+                let documented_loss = !in_creator && !fast && !persistent;
+                for (k, op) in ops.iter().enumerate() {
+                    if problem.is_some() {
+                        break;
+                    }
+                    std::thread::sleep(Duration::from_millis(30));
+                    let n_before = notified.load(Ordering::SeqCst);
+                    let c_before = creates.load(Ordering::SeqCst);
+                    apply(op, &w, &out);
+                    let got_note = wait_until(if documented_loss { 300 } else { 3000 }, || notified.load(Ordering::SeqCst) > n_before);
+                    std::thread::sleep(Duration::from_millis(40));
+                    let want = disk_state(&w);
+                    let after = env_state(&reloader.acquire_env().unwrap());
+                    let c_after = creates.load(Ordering::SeqCst);
+                    if documented_loss {
+                        continue;
+                    }
+                    if !got_note {
+                        problem = Some(format!("step{}:{}: no notification within 3 s (watcher gone?)", k + 1, op));
+                    } else if after != want {
+                        problem = Some(format!("step{}:{}: next acquire does not reflect the disk env={:?} disk={:?}", k + 1, op, after, want));
+                    } else if (fast && c_after != c_before) || (!fast && c_after <= c_before) {
+                        problem = Some(format!("step{}:{}: wrong kind of reload, creator calls {}->{}", k + 1, op, c_before, c_after));
+                    }
+                }
+                match problem {
+                    None => println!("wfs\t{}\t{}\tsteps=4 creates={}", name, if documented_loss { "info" } else { "ok" }, creates.load(Ordering::SeqCst)),
+                    Some(p) => {
+                        println!("wfs\t{}\tFAIL\t{}", name, p);
+                        fails.set(fails.get() + 1);
+                    }
+                }
+                if fails.get() >= 9 {
+                    println!("wfs\tremaining-cases\tinfo\tskipped after {} failures", fails.get());
+                    fs::remove_dir_all(&base).ok();
+                    return;
+                }
+            }
+        }
+    }
+
+    // ---- a race of the current code (known finding): fast reload is switched ON by someone else
+    //      between prepare_and_mark_reload (which dropped the watcher because fast reload was off)
+    //      and the create-or-clear decision (which now sees fast reload on and does not run the
+    //      creator): nobody re-registers, later file changes are not noticed.
+    {
+        use minijinja_autoreload::verif_hooks::{set_yield, Point};
+        case_no += 1;
+        let root = base.join(format!("case{}", case_no));
+        let w = root.join("w");
+        fs::create_dir_all(&w).unwrap();
+        fs::write(w.join("a.txt"), "a1").unwrap();
+        let w2 = w.clone();
+        let reloader = Arc::new(AutoReloader::new(move |n| {
+            let mut env = Environment::new();
+            env.set_loader(path_loader(&w2));
+            n.watch_path(&w2, true);
+            Ok(env)
+        }));
+        let notified = Arc::new(AtomicUsize::new(0));
+        let n2 = notified.clone();
+        reloader.notifier().set_on_should_reload_callback(move || {
+            n2.fetch_add(1, Ordering::SeqCst);
+        });
+        let _ = env_state(&reloader.acquire_env().unwrap());
+        let armed = Arc::new(AtomicUsize::new(1));
+        let (a2, nf) = (armed.clone(), reloader.notifier());
+        set_yield(Some(Arc::new(move |p: Point| {
+            if p == Point::AfterReset && a2.swap(0, Ordering::SeqCst) == 1 {
+                nf.set_fast_reload(true); // "another thread", exactly in the window
+            }
+        })));
+        reloader.notifier().request_reload();
+        let _ = env_state(&reloader.acquire_env().unwrap());
+        set_yield(None);
+        std::thread::sleep(Duration::from_millis(30));
+        let n_before = notified.load(Ordering::SeqCst);
+        fs::write(w.join("a.txt"), "a2").unwrap();
+        let got_note = wait_until(1500, || notified.load(Ordering::SeqCst) > n_before);
+        std::thread::sleep(Duration::from_millis(40));
+        let after = env_state(&reloader.acquire_env().unwrap());
+        let ok = got_note && after == disk_state(&w);
+        println!(
+            "wfs\trace-fast-switched-on-during-reload\t{}\tnotified={} env[a.txt]={} disk[a.txt]={}",
+            if ok { "ok" } else { "FAIL" }, got_note, after[0], disk_state(&w)[0]
+        );
     }
     fs::remove_dir_all(&base).ok();
 }
